@@ -1544,7 +1544,34 @@ Proof.
   split; [apply R, Ranked_init|]. split; [exact D|]. intros e. apply (K e).
 Qed.
 
-(* a state like that cannot coexist with a reachable cycle of the manifest relation *)
+(* a state like that cannot coexist with a cycle of the manifest relation inside a set of nodes
+   that is closed under "input of" and whose producers are all Done *)
+Lemma accepted_no_cycle_gen (P : node -> Prop) s rank K c :
+  ranked_by rank K s ->
+  (forall x, P x -> done_of x s) ->
+  (forall x y, P x -> step_via g (manifest_ins g) x y -> P y) ->
+  (forall e, incl (ei_ins (g_edge g e)) (ins_of s e)) ->
+  closed_walk_via g (manifest_ins g) c ->
+  (forall x, hd_error c = Some x -> P x) ->
+  False.
+Proof.
+  intros HR Hdone Hclosed HK Hc Hreach.
+  set (insD := fun e => match mark_of s e with VisitDone => ins_of s e | _ => [] end).
+  assert (Hrk : ranked_via g insD rank).
+  { intros e i e' Hi He'. unfold insD in Hi. destruct (mark_of s e) eqn:Me; try destruct Hi.
+    apply (proj2 (HR e Me) i e' Hi He'). }
+  assert (Hwalk : forall l x, P x -> walk_via g (manifest_ins g) (x :: l) -> walk_via g insD (x :: l)).
+  { induction l as [|y l IHl]; intros x Hx Hw; [apply walk_one|].
+    destruct (walk_cons_inv _ x y l Hw) as [[ex [Hex Hin]] Hrest].
+    apply walk_cons.
+    - exists ex. split; [exact Hex|]. unfold insD. rewrite (Hdone x Hx ex Hex). apply HK; exact Hin.
+    - apply IHl; [|exact Hrest]. apply (Hclosed x y Hx). exists ex. split; assumption. }
+  destruct Hc as [Hw [Hlen Hhd]].
+  destruct c as [|x l]; [cbn in Hlen; lia|].
+  apply (ranked_acyclic insD rank Hrk (x :: l)).
+  split; [apply Hwalk; [apply Hreach; reflexivity|exact Hw]|]. split; assumption.
+Qed.
+
 Lemma accepted_no_cycle targets s rank K c :
   ranked_by rank K s ->
   (forall t, In t targets -> done_of t s) ->
@@ -1554,26 +1581,12 @@ Lemma accepted_no_cycle targets s rank K c :
   False.
 Proof.
   intros HR HD HK Hc Hreach.
-  assert (Hdone : forall x, reach_via g (manifest_ins g) targets x -> done_of x s).
-  { intros x Hx. induction Hx as [t Ht|x y Hx IHx [ex [Hex Hin]]].
-    - apply HD; exact Ht.
-    - intros ey Hey. pose proof (IHx ex Hex) as Dex.
-      apply (proj2 (HR ex Dex) y ey); [apply HK; exact Hin|exact Hey]. }
-  set (insD := fun e => match mark_of s e with VisitDone => ins_of s e | _ => [] end).
-  assert (Hrk : ranked_via g insD rank).
-  { intros e i e' Hi He'. unfold insD in Hi. destruct (mark_of s e) eqn:Me; try destruct Hi.
-    apply (proj2 (HR e Me) i e' Hi He'). }
-  assert (Hwalk : forall l x, reach_via g (manifest_ins g) targets x ->
-                              walk_via g (manifest_ins g) (x :: l) -> walk_via g insD (x :: l)).
-  { induction l as [|y l IHl]; intros x Hx Hw; [apply walk_one|].
-    destruct (walk_cons_inv _ x y l Hw) as [[ex [Hex Hin]] Hrest].
-    apply walk_cons.
-    - exists ex. split; [exact Hex|]. unfold insD. rewrite (Hdone x Hx ex Hex). apply HK; exact Hin.
-    - apply IHl; [|exact Hrest]. apply (reach_step _ _ _ x y Hx). exists ex. split; assumption. }
-  destruct Hc as [Hw [Hlen Hhd]].
-  destruct c as [|x l]; [cbn in Hlen; lia|].
-  apply (ranked_acyclic insD rank Hrk (x :: l)).
-  split; [apply Hwalk; [apply Hreach; reflexivity|exact Hw]|]. split; assumption.
+  apply (accepted_no_cycle_gen (reach_via g (manifest_ins g) targets) s rank K c HR); try assumption.
+  - intros x Hx. induction Hx as [t Ht|x y Hx IHx [ex [Hex Hin]]].
+    + apply HD; exact Ht.
+    + intros ey Hey. pose proof (IHx ex Hex) as Dex.
+      apply (proj2 (HR ex Dex) y ey); [apply HK; exact Hin|exact Hey].
+  - intros x y Hx Hs. apply (reach_step _ _ _ x y Hx Hs).
 Qed.
 
 (* C17, completeness: a cycle of the manifest relation among what the targets need (not through
@@ -1627,6 +1640,129 @@ Proof.
   pose proof (C17_complete targets c Hc Hreach) as Hno.
   destruct (scan g w targets) as [c'|m d|e| |s1 p1]; try exact I; [congruence|].
   apply (Hno s1 p1). reflexivity.
+Qed.
+
+(* ---- validations: every validation target of a visited statement is scanned too *)
+Definition vcover (a b : sv) : Prop :=
+  ext (fst a) (fst b) /\ incl (snd a) (snd b) /\
+  forall e, mark_of (fst a) e = VisitNone -> mark_of (fst b) e = VisitDone ->
+            incl (ei_vals (g_edge g e)) (snd b).
+
+Lemma vcover_refl a : vcover a a.
+Proof.
+  split; [apply ext_refl|]. split; [apply incl_refl|]. intros e H1 H2. congruence.
+Qed.
+
+Lemma vcover_trans a b c : vcover a b -> vcover b c -> vcover a c.
+Proof.
+  intros [E1 [I1 C1]] [E2 [I2 C2]]. split; [eapply ext_trans; eassumption|].
+  split; [eapply incl_tran; eassumption|].
+  intros e Ha Hc. pose proof (E1 e) as Cl. unfold clause in Cl. rewrite Ha in Cl.
+  destruct Cl as [Heq|Hd].
+  - apply C2; [rewrite Heq; exact Ha|exact Hc].
+  - eapply incl_tran; [apply (C1 e Ha Hd)|exact I2].
+Qed.
+
+Lemma rnd_vcover : forall f stack n s vs s' vs',
+  rnd f stack n (s, vs) = SOk (s', vs') -> vcover (s, vs) (s', vs').
+Proof.
+  induction f as [|f IH]; intros stack n s vs s' vs' H; [discriminate|].
+  destruct (rnd_ok _ _ _ _ _ _ _ H) as [Eext _].
+  destruct (g_producer g n) as [e|] eqn:Hp.
+  2:{ cbn [recompute_node_dirty] in H. rewrite Hp in H.
+      assert (E : st_edge s' = st_edge s /\ vs' = vs).
+      { destruct (n_known (st_node s n)); inversion H; subst; [split; reflexivity|].
+        split; [|reflexivity]. cbn [set_dirty upd_node st_edge]. apply st_edge_stat_if_necessary. }
+      destruct E as [E ->]. split; [exact Eext|]. split; [apply incl_refl|].
+      intros e0 H1 H2. cbn [fst] in *. rewrite E in H2. congruence. }
+  destruct (mark_of s e) eqn:Hm.
+  2:{ cbn [recompute_node_dirty] in H. rewrite Hp, Hm in H. discriminate. }
+  2:{ cbn [recompute_node_dirty] in H. rewrite Hp, Hm in H. inversion H; subst. apply vcover_refl. }
+  destruct (rnd_none_ok f stack n e s vs Hp Hm s' vs' H)
+    as [s3 [vs3 [s5 [new_ins [s6 [s7 [s8 [d [V1 [L35 [D56 [V2 [L78 Hs']]]]]]]]]]]]].
+  destruct (s2_props e s) as [A2 [M2 I2]].
+  set (s2 := stat_outputs w (enter_edge s e) (edge_outs g e)) in *.
+  assert (Hstep : forall l i (a0 a1 : sv), In i l -> True -> rnd f (stack ++ [n]) i a0 = SOk a1 ->
+                                   True /\ vcover a0 a1 /\ True).
+  { intros l i [sa va] [sb vb] _ _ Hv. split; [exact I|]. split; [apply (IH _ _ _ _ _ _ Hv)|exact I]. }
+  destruct (visit_all_rel (fun _ => True) vcover (fun _ _ => True) _ vcover_refl vcover_trans
+                          (fun _ _ _ _ _ => I) _ (Hstep _) (s2, vs ++ ei_vals (g_edge g e)) (s3, vs3) I V1)
+    as [_ [[E23 [I23 C23]] _]].
+  destruct (visit_all_rel (fun _ => True) vcover (fun _ _ => True) _ vcover_refl vcover_trans
+                          (fun _ _ _ _ _ => I) _ (Hstep _) (s6, vs3) (s7, vs') I V2)
+    as [_ [[E67 [I67 C67]] _]].
+  cbn [fst snd] in *.
+  destruct (finish_edge_props e s8 d) as [A9 [M9 _]]. rewrite <- Hs' in A9, M9.
+  split; [exact Eext|]. split.
+  - intros x Hx. apply I67, I23. apply in_or_app. left; exact Hx.
+  - intros e0 H0 Hd. cbn [fst snd] in *. destruct (Nat.eq_dec e0 e) as [->|Hne].
+    + intros x Hx. apply I67, I23. apply in_or_app. right; exact Hx.
+    + rewrite (A9 e0 Hne) in Hd. rewrite (marks_eq_of_local e s7 s8 L78 e0) in Hd.
+      assert (H2 : mark_of s2 e0 = VisitNone) by (rewrite (A2 e0 Hne); exact H0).
+      pose proof (E23 e0) as Cl. unfold clause in Cl. rewrite H2 in Cl. destruct Cl as [Heq|Hd3].
+      * apply (C67 e0); [|exact Hd].
+        rewrite (proj1 D56 e0 Hne), (marks_eq_of_local e s3 s5 L35 e0), Heq. exact H2.
+      * eapply incl_tran; [apply (C23 e0 H2 Hd3)|exact I67].
+Qed.
+
+(* the validation targets of every Done statement are Done or still queued *)
+Definition VQ (queue : list node) (s : sstate) : Prop :=
+  forall e, mark_of s e = VisitDone -> forall v, In v (ei_vals (g_edge g e)) -> done_of v s \/ In v queue.
+
+Lemma loop_VQ : forall qf queue s found s' vs',
+  recompute_dirty_loop g w qf queue s found = SOk (s', vs') ->
+  Inv [] s -> VQ queue s -> VQ [] s'.
+Proof.
+  induction qf as [|qf IH]; intros queue s found s' vs' H HI HV; destruct queue as [|n queue];
+    cbn [recompute_dirty_loop] in H; try discriminate.
+  - inversion H; subst; exact HV.
+  - inversion H; subst; exact HV.
+  - destruct (rnd (scan_fuel g) [] n (s, [])) as [[s1 newv]|c|e|] eqn:Hv; try discriminate.
+    apply (IH _ _ _ _ _ H); [apply (rnd_top_Inv _ _ _ _ _ _ Hv HI)|].
+    destruct (rnd_vcover _ _ _ _ _ _ _ Hv) as [E [_ C]]. cbn [fst snd] in *.
+    destruct (rnd_ok _ _ _ _ _ _ _ Hv) as [_ [_ Dn]].
+    intros e He v Hin. destruct (mark_of s e) eqn:Ms.
+    + right. apply in_or_app. right. apply (C e Ms He). exact Hin.
+    + destruct (proj1 HI e Ms) as [x [[] _]].
+    + destruct (HV e Ms v Hin) as [Hd|[<-|Hq]].
+      * left. intros e' He'. apply (ext_done s s1 e' E). apply Hd; exact He'.
+      * left. exact Dn.
+      * right. apply in_or_app. left; exact Hq.
+Qed.
+
+Lemma VQ_weaken q s : VQ [] s -> VQ q s.
+Proof. intros H e He v Hv. destruct (H e He v Hv) as [Hd|[]]. left; exact Hd. Qed.
+
+Lemma add_targets_VQ : forall targets s p s' p',
+  add_targets g w s p targets = ScanOk s' p' -> Inv [] s -> VQ [] s -> VQ [] s'.
+Proof.
+  induction targets as [|t targets IH]; intros s p s' p' H HI HV; cbn [add_targets] in H.
+  - inversion H; subst; exact HV.
+  - pose proof (bat_result s p t) as Hb.
+    destruct (builder_add_target g w s p t) as [c|m d|e| |s1 p1]; try discriminate.
+    destruct Hb as [vn Hb]. apply (IH _ _ _ _ H).
+    + apply (loop_Inv _ _ _ _ _ _ Hb HI).
+    + apply (loop_VQ _ _ _ _ _ _ Hb HI). apply VQ_weaken; exact HV.
+Qed.
+
+(* C17, completeness including the validation targets: a manifest cycle among what the targets
+   need, counting what their validation targets need, is never accepted *)
+Theorem C17_complete_validations targets c :
+  closed_walk_via g (manifest_ins g) c ->
+  (forall x, hd_error c = Some x -> reach_val g targets x) ->
+  forall s p, scan g w targets <> ScanOk s p.
+Proof.
+  intros Hc Hreach s p H.
+  destruct (C17_complete_final targets s p H) as [[rank [K HR]] [HD HK]].
+  assert (HV : VQ [] s).
+  { apply (add_targets_VQ _ _ _ _ _ H Inv_init). intros e He. cbn in He. discriminate. }
+  apply (accepted_no_cycle_gen (reach_val g targets) s rank K c HR); try assumption.
+  - intros x Hx. induction Hx as [t Ht|x y Hx IHx [ex [Hex Hin]]|x e v Hx IHx Hp Hv].
+    + apply HD; exact Ht.
+    + intros ey Hey. pose proof (IHx ex Hex) as Dex.
+      apply (proj2 (HR ex Dex) y ey); [apply HK; exact Hin|exact Hey].
+    + destruct (HV e (IHx e Hp) v Hv) as [Hd|[]]. exact Hd.
+  - intros x y Hx Hs. apply (rv_input g targets x y Hx Hs).
 Qed.
 
 End Proofs.
@@ -1691,6 +1827,30 @@ Module CycleExample.
   Lemma reported : scan g w [0] = ScanCycle [0; 1; 0].
   Proof. vm_compute. reflexivity. Qed.
 End CycleExample.
+
+(* a cycle inside the closure of a validation target:
+     build a: r s |@ v ; build v: r x ; build x: r v      (a = 0, v = 1, x = 2, s = 3) *)
+Module ValidationCycleExample.
+  Definition e0 := mkEdge [3] 0 0 [0] [1] false false false DepsNone 7%N.
+  Definition e1 := mkEdge [2] 0 0 [1] [] false false false DepsNone 8%N.
+  Definition e2 := mkEdge [1] 0 0 [2] [] false false false DepsNone 9%N.
+  Definition dummy := mkEdge [] 0 0 [] [] false false false DepsNone 0%N.
+  Definition g := mkGraph 3 (fun e => match e with 0 => e0 | 1 => e1 | 2 => e2 | _ => dummy end)
+                          (fun n => match n with 0 => Some 0 | 1 => Some 1 | 2 => Some 2 | _ => None end)
+                          (fun _ => false).
+  Definition w := mkWorld (fun n => match n with 3 => 5%Z | _ => 0%Z end)
+                          (fun _ => None) (fun _ => None) (fun _ => DfMissing).
+  Lemma cyc : closed_walk_via g (manifest_ins g) [1; 2; 1].
+  Proof.
+    split; [|split; [cbn; lia|reflexivity]].
+    apply walk_cons; [exists 1; split; [reflexivity|left; reflexivity]|].
+    apply walk_cons; [exists 2; split; [reflexivity|left; reflexivity]|apply walk_one].
+  Qed.
+  Lemma reach : reach_val g [0] 1.
+  Proof. apply (rv_validation g [0] 0 0 1); [apply rv_target; left; reflexivity|reflexivity|left; reflexivity]. Qed.
+  Lemma reported : scan g w [0] = ScanCycle [1; 2; 1].
+  Proof. vm_compute. reflexivity. Qed.
+End ValidationCycleExample.
 
 (* The caveat.  A cycle closed only by a deps-log record of a statement that is ALREADY DIRTY:
      build o: cc s   (deps = gcc; the deps log says: o read x)      (o = 0, x = 1, s = 2)
@@ -2786,7 +2946,7 @@ Lemma SInv_leaf s n :
   let s' := set_dirty s1 n (negb (n_exists (nd s1 n))) in
   SInv s' /\ vrel s s' /\ node_final s' n.
 Proof.
-  intros Hp Hk [S1 [S2 S3]] s1 s'.
+  intros Hp Hk [S1 [S2 [S3 S4]]] s1 s'.
   assert (E : st_edge s' = st_edge s) by (subst s' s1; cbn [set_dirty upd_node st_edge]; apply st_edge_stat_if_necessary).
   assert (O : forall n', n' <> n -> nd s' n' = nd s n').
   { intros n' Hne. subst s' s1. unfold set_dirty. rewrite upd_node_other by exact Hne. apply stat_other; exact Hne. }
@@ -2795,7 +2955,8 @@ Proof.
   { subst s' s1. unfold set_dirty. rewrite upd_node_same. unfold stat_if_necessary. rewrite Hk.
     rewrite upd_node_same. cbn [ns_mtime ns_exists n_exists]. destruct (Z.eqb (w_mtime w n) 0); reflexivity. }
   split; [|split].
-  - split; [|split].
+  - split; [|split; [|split]].
+    4:{ intros e Hm. rewrite E in *. apply S4. exact Hm. }
     + intros n' Hf. destruct (Nat.eq_dec n' n) as [->|Hne].
       * unfold node_ok. rewrite Hn. cbn [ns_dirty ns_mtime]. split.
         -- rewrite Z.eqb_eq. split; [intros Hz; apply md_leaf; assumption|intros Hmd; apply must_dirty_leaf_inv; assumption].
@@ -2824,13 +2985,13 @@ Proof.
       split; [exact HS|]. split; [apply vrel_refl|]. unfold node_final. rewrite Hp. exact Hm. }
   destruct (rnd_ok g w _ _ _ _ _ _ _ H) as [Eext [_ Ddone]].
   rewrite (rnd_none_unfold g w f stack n e s vs Hp Hm) in H.
-  destruct HS as [S1 [S2 S3]]. destruct (S3 e Hm) as [Hdl Hins]. rewrite Hdl in H.
+  destruct HS as [S1 [S2 [S3 S4]]]. destruct (S3 e Hm) as [Hdl Hins]. rewrite Hdl in H.
   destruct (s2_props g w e s) as [A2 [M2 I2]].
   set (s2 := stat_outputs w (enter_edge s e) (edge_outs g e)) in *.
   assert (LS2 : lstep e s s2).
   { split; [exact A2|]. intros n' Hn'. subst s2. rewrite stat_outputs_other by exact Hn'. reflexivity. }
   assert (HS2 : SInv s2).
-  { apply (SInv_lstep e s s2 (conj S1 (conj S2 S3)) LS2); [rewrite Hm; discriminate|exact M2]. }
+  { apply (SInv_lstep e s s2 (conj S1 (conj S2 (conj S3 S4))) LS2); [rewrite Hm; discriminate|exact M2]. }
   assert (T2 : forall o, In o (edge_outs g e) -> statted s2 o).
   { intros o Ho. subst s2. apply stat_outputs_statted; [exact Ho|].
     intros o' Ho'. left. change (nd (enter_edge s e) o') with (nd s o').
@@ -2886,10 +3047,11 @@ Qed.
 
 Lemma SInv_init : SInv (init_state g).
 Proof.
-  split; [|split].
+  split; [|split; [|split]].
   - intros n Hf. unfold node_final in Hf. destruct (g_producer g n); cbn in Hf; discriminate.
   - intros n e _ _. reflexivity.
   - intros e _. split; reflexivity.
+  - intros e He. cbn in He. discriminate.
 Qed.
 
 (* scan_dirty_spec: after an accepted scan, for every node the scan has looked at (a source
@@ -2902,11 +3064,40 @@ Theorem scan_dirty_spec targets s p :
     (ns_dirty (nd s n) = false -> forall x, x < ns_mtime (nd s n) <-> newer_than g w x n).
 Proof.
   intros H n Hk.
-  destruct (add_targets_spec _ _ _ _ _ H SInv_init (Inv_init g w)) as [[S1 [S2 S3]] [I1 _]].
+  destruct (add_targets_spec _ _ _ _ _ H SInv_init (Inv_init g w)) as [[S1 [S2 [S3 S4]]] [I1 _]].
   apply S1. unfold node_final. destruct (g_producer g n) as [e|] eqn:Hp; [|exact Hk].
   destruct (mark_of s e) eqn:Hm; [| |reflexivity].
   - rewrite (S2 n e Hp Hm) in Hk. discriminate.
   - destruct (I1 e Hm) as [x [[] _]].
+Qed.
+
+(* Under [deps_safe] nothing the targets need is skipped: every needed statement is visited,
+   so the flags of ALL its outputs are the specified ones. *)
+Theorem scan_visits_needed targets s p :
+  deps_safe g w -> scan g w targets = ScanOk s p ->
+  forall e, needed g w targets e -> mark_of s e = VisitDone.
+Proof.
+  intros Hsafe H e Hn.
+  destruct (add_targets_spec _ _ _ _ _ H SInv_init (Inv_init g w)) as [[S1 [S2 [S3 S4]]] _].
+  destruct (C17_complete_final g w targets s p H) as [[rank [K HR]] [HD HK]].
+  induction Hn as [t e Ht Hp|e i e' Hn IH Hi Hp].
+  - apply (HD t Ht e Hp).
+  - assert (Hin : In i (ins_of s e)).
+    { unfold need_ins in Hi. apply in_app_or in Hi. destruct Hi as [Hi|Hi]; [apply HK; exact Hi|].
+      destruct (S4 e IH) as [Hown|Hincl]; [|apply Hincl; exact Hi].
+      apply HK. apply (Hsafe e i e' Hown Hi Hp). }
+    apply (proj2 (HR e IH) i e' Hin Hp).
+Qed.
+
+Theorem scan_dirty_spec_needed targets s p :
+  deps_safe g w -> scan g w targets = ScanOk s p ->
+  forall e o, needed g w targets e -> g_producer g o = Some e ->
+    (ns_dirty (nd s o) = true <-> must_dirty g w o) /\
+    (ns_dirty (nd s o) = false -> forall x, x < ns_mtime (nd s o) <-> newer_than g w x o).
+Proof.
+  intros Hsafe H e o Hn Hp.
+  destruct (add_targets_spec _ _ _ _ _ H SInv_init (Inv_init g w)) as [[S1 _] _].
+  apply S1. unfold node_final. rewrite Hp. apply (scan_visits_needed targets s p Hsafe H e Hn).
 Qed.
 
 End SpecProofs.
@@ -3254,3 +3445,44 @@ Module GeneratorExample.
     end.
   Proof. vm_compute. repeat split; reflexivity. Qed.
 End GeneratorExample.
+
+(* the graph of C10Witness with an untouched consumer source: deps_safe holds, the recorded
+   header is spliced in, its statement is visited and wanted *)
+Module DepsSafeExample.
+  Definition g := C10Witness.g.
+  Definition w := mkWorld (fun n => match n with 0 => 5%Z | 1 => 6%Z | 2 => 20%Z | 3 => 3%Z | _ => 0%Z end)
+                          (w_blog C10Witness.w) (w_dlog C10Witness.w) (w_depfile C10Witness.w).
+
+  Lemma src_clean : ~ must_dirty g w 3.
+  Proof. intros H. inversion H; subst; cbn in *; try discriminate. Qed.
+
+  Lemma not_newer_src x : (3 <= x)%Z -> ~ newer_than g w x 3.
+  Proof. intros Hx H. inversion H; subst; cbn in *; try discriminate; lia. Qed.
+
+  Lemma safe : deps_safe g w.
+  Proof.
+    intros e i e' Hown Hi Hp. destruct e as [|[|e]]; try (cbn in Hi; destruct Hi; fail).
+    exfalso. destruct Hown as [[j [Hj Hd]]|[[Hph _]|[_ [o [Ho Hr]]]]].
+    - cbn in Hj. destruct Hj as [<-|[]]. exact (src_clean Hd).
+    - cbn in Hph. discriminate.
+    - cbn in Ho. destruct Ho as [<-|[]]. destruct Hr as [[Hz|[_ Hh]]|[[_ [j [Hj Hn]]]|[j [Hj Hn]]]].
+      + cbn in Hz. discriminate.
+      + cbn in Hh. congruence.
+      + cbn in Hj. destruct Hj as [<-|[]]. apply (not_newer_src 6%Z); [lia|exact Hn].
+      + cbn in Hj. destruct Hj as [<-|[]]. apply (not_newer_src 6%Z); [lia|exact Hn].
+  Qed.
+
+  Lemma hdr_needed : needed g w [1] 0.
+  Proof.
+    apply (needed_step g w [1] 1 0 0); [apply (needed_target g w [1] 1 1); [left|]; reflexivity| |reflexivity].
+    unfold need_ins. apply in_or_app. right. vm_compute. left; reflexivity.
+  Qed.
+
+  Lemma scanned :
+    match scan g w [1] with
+    | ScanOk s p => es_mark (st_edge s 0) = VisitDone /\ es_ins (st_edge s 1) = [3; 0] /\
+                    p_want p 0 = Some WantToStart /\ p_want p 1 = Some WantToStart
+    | _ => False
+    end.
+  Proof. vm_compute. repeat split; reflexivity. Qed.
+End DepsSafeExample.
